@@ -258,6 +258,8 @@ Proof.
   assert (Hc : s_connected st = a_connected a) by (dR HR; auto). rewrite Hc.
   destruct (a_connected a) eqn:Hcon; [|eauto].
   unfold send_raw_inner.
+  assert (Hse : s_sm_enabled st = a_sm_enabled a) by (dR HR; auto). rewrite Hse. cbv zeta.
+  generalize (effective_owner (a_sm_enabled a) ow). clear ow. intros ow.
   destruct (enqueue_refines st a d ow None HR) as (st1 & He1 & HR1). rewrite He1. cbn [bind].
   destruct (a_enqueue a d ow None) as [a1 item] eqn:Ea.
   assert (item = a_next a) by (rewrite <- (a_enqueue_snd a d ow None), Ea; reflexivity). subst item.
@@ -1234,7 +1236,8 @@ Proof. intros. unfold K, a_enqueue. cbn. apply Kc_enqueue; auto. Qed.
 
 Lemma K_send : forall a ow d, K a -> K (a_send a ow d).
 Proof.
-  intros a ow d HK. unfold a_send. destruct (a_connected a); auto.
+  intros a ow d HK. unfold a_send. destruct (a_connected a); auto. cbv zeta.
+  generalize (effective_owner (a_sm_enabled a) ow). clear ow. intros ow.
   pose proof (K_a_enqueue a d ow None HK) as H1. specialize (H1 ltac:(congruence)).
   destruct (a_enqueue a d ow None) as [a1 item] eqn:E. cbn [fst] in H1.
   destruct (negb (is_sm ow) && a_sm_enabled a1 && negb (a_r_sent a1)); auto.
@@ -1520,7 +1523,8 @@ Qed.
 Lemma step_keys : forall a o, K a -> map lkey (a_log (fst (a_step a o))) = map lkey (a_log a) ++ submitted a o.
 Proof.
   intros a o HK. destruct o as [ow d|l| |w| |h]; cbn [a_step fst submitted]; try (now rewrite app_nil_r).
-  - unfold a_send. destruct (a_connected a) eqn:Ec; [|now rewrite app_nil_r].
+  - unfold a_send. destruct (a_connected a) eqn:Ec; [|now rewrite app_nil_r]. cbv zeta.
+    generalize (effective_owner (a_sm_enabled a) ow). clear ow. intros ow.
     cbn [a_enqueue a_sm_enabled a_r_sent a_connected a_set_r_sent]. 
     destruct (negb (is_sm ow) && a_sm_enabled a && negb (a_r_sent a)).
     + rewrite Ec. cbn [fst a_enqueue a_log a_next a_set_r_sent]. rewrite !map_app. cbn. rewrite <- app_assoc. reflexivity.
@@ -1663,7 +1667,8 @@ Lemma Gen_sendqueue_consts_ok :
             is_sm o = negb (Z.eqb (Z.land (owner_code o) q_sm) 0).
 Proof. split; [reflexivity|]. intros []; vm_compute; auto. Qed.
 
-Lemma Gen_sendqueue_send_ok : src_send_counts = true /\ src_send_links_tail = true /\ src_send_piggyback = true.
+Lemma Gen_sendqueue_send_ok :
+  src_send_lib_before_sm = true /\ src_send_counts = true /\ src_send_links_tail = true /\ src_send_piggyback = true.
 Proof. repeat split; reflexivity. Qed.
 
 Lemma Gen_sendqueue_loop_ok :
@@ -1681,7 +1686,7 @@ Lemma Gen_sendqueue_ok :
    forall o, is_user o = Z.eqb (owner_code o) q_user /\
              is_user o = negb (Z.eqb (Z.land (owner_code o) q_user) 0) /\
              is_sm o = negb (Z.eqb (Z.land (owner_code o) q_sm) 0)) /\
-  (src_send_counts = true /\ src_send_links_tail = true /\ src_send_piggyback = true) /\
+  (src_send_lib_before_sm = true /\ src_send_counts = true /\ src_send_links_tail = true /\ src_send_piggyback = true) /\
   (src_loop_write = true /\ src_loop_written_accumulates = true /\ src_loop_wip_then_stop = true /\
    src_loop_counts = true /\ src_loop_moves_to_smq = true /\ src_loop_head_prev_cleared = true) /\
   (src_len_body = true /\ src_unlink_body = true /\ src_drop_single_wip = true /\ src_drop_choice = true /\
